@@ -64,7 +64,7 @@ def plan(tier, seed):
             shards.append(('lattice', s, list(vals), gs[i:i + 12]))
     shards.append(('make_grid', None, None, None))
     for inp in (('file', '3SGB'), ('file', '1HPX'), ('pair', 'ASP', 'LYS', 2.8, 'mid'), ('pair', 'HIS', 'GLU', 3.0, 'deep'),
-                ('pair', 'ACT', 'MAM', 2.9, 'exposed')):
+                ('pair', 'ACT', 'MAM', 2.9, 'exposed'), ('dna', 'DA', 'N1'), ('dna', 'DT', 'N3')):
         shards.append(('real', list(inp), None, gs[::7]))
     return dict(shards=shards, exhaustive=True,
                 rule=('grids (min,max,step): min in {0,1,2.5} x span in {0.3,1,6,14} x step in {.05,.1,.25,.3,.5,.7,1,2} '
@@ -229,12 +229,8 @@ def run_case(case, ctx, acc):
             pf.set_pkas(m, case['pkas'])
             return m
     else:
-        inp = case['inp']
-        if inp[0] == 'file':
-            text = gen.library().text(inp[1])
-        else:
-            text = gen.to_text(gen.pair(inp[1], inp[2], inp[3], level=inp[4], offset=gen.seed_offset(ctx.seed)))
-        cache = {}
+        from . import c09
+        text = c09.real_text(case['inp'], ctx.seed)
 
         def factory(opts):
             return pk.run(text, opts)
